@@ -1300,6 +1300,9 @@ class DenseSquareMatrix(InvertibleMatrix, ExplicitArrayMatrix):
                 transpose.
         """
         super().__init__(array.shape, _array=array)
+        if lu_and_piv is not None:
+            for factor_array in lu_and_piv:
+                factor_array.flags.writeable = False
         self._lu_and_piv = lu_and_piv
         self._lu_transposed = lu_transposed
 
@@ -1449,6 +1452,8 @@ class DenseSymmetricMatrix(SymmetricMatrix, InvertibleMatrix, ExplicitArrayMatri
         if isinstance(eigvec, np.ndarray):
             eigvec = OrthogonalMatrix(eigvec)
         self._eigvec = eigvec
+        if isinstance(eigval, np.ndarray):
+            eigval.flags.writeable = False
         self._eigval = eigval
 
     def _scalar_multiply(self, scalar: ScalarLike) -> DenseSymmetricMatrix:
